@@ -23,6 +23,7 @@ import ZCV.Model.LoggerSetup
 import ZCV.Model.UrlPath
 import ZCV.Model.Timedelta
 import ZCV.Model.LogFormat
+import ZCV.CodecHost
 /-! Line-protocol driver: one request per line, one answer per line. Imports Spec + Model + Gen only. -/
 open ZCV ZCV.SExp ZCV.Codec ZCV.Cfg
 
@@ -322,7 +323,8 @@ def handle (st : DState) : SExp → DState × SExp
                 | .error .attributeError => .atom "AttributeError" | .error .overflowError => .atom "OverflowError"
                 | .error .unmodelled => .atom "unmodelled"])
   | .list [.atom "ping"] => (st, .atom "pong")
-  | _ => (st, .list [.atom "bad-request"])
+  -- host-parameterised datatypes (ZCV/CodecHost.lean): hostdt, dirname, memolocale, memoseq
+  | other => (st, match CodecHost.handle other with | some a => a | none => .list [.atom "bad-request"])
 
 partial def loop (h : IO.FS.Stream) (out : IO.FS.Stream) (st : DState) : IO Unit := do
   let line ← h.getLine
